@@ -358,7 +358,7 @@ Proof.
   revert s. induction C as [|[[[k a] l1] l2] C IH]; intros s; simpl.
   - split; [intros H; left; exact H | intros [H|[]]; exact H].
   - rewrite IH. rewrite rows_eq, map_app, flat_map_app. simpl.
-    rewrite !in_app_iff. simpl. rewrite !in_app_iff. tauto.
+    rewrite ?in_app_iff. simpl. rewrite ?in_app_iff. tauto.
 Qed.
 
 Lemma ctx_rows_key C h r : In r (ctx_rows C h) -> In (rkey r) (ctx_keys C).
@@ -471,7 +471,9 @@ Proof.
   revert s. induction t as [k a l IH] using tree_ind'. intros s. rewrite find_eq. keq x k.
   - intros H. inversion H; subst. exists []. reflexivity.
   - intros H. apply find_list_Some in H. destruct H as [l1 [c [l2 [-> Hf]]]].
-    rewrite Forall_forall in IH. destruct (IH c (in_or_app _ _ _ (or_intror (or_introl eq_refl))) s Hf) as [C ->].
+    rewrite Forall_forall in IH.
+    assert (Hc : In c (l1 ++ c :: l2)) by (apply in_or_app; right; left; reflexivity).
+    destruct (IH c Hc s Hf) as [C ->].
     exists (C ++ [(k, a, l1, l2)]). rewrite plug_app. reflexivity.
 Qed.
 
@@ -494,7 +496,7 @@ Proof.
   exists C, a, l1, l2. split; [|eapply find_tkey; exact Hf].
   change (plug C (Node p a (l1 ++ c :: l2))) with (plug ((p, a, l1, l2) :: C) c) in *.
   rewrite find_plug in Hf; [|exact Hn | subst e; apply tkey_in_keys].
-  subst e. rewrite find_self in Hf. congruence.
+  subst e. rewrite find_self in Hf. inversion Hf; subst. reflexivity.
 Qed.
 
 (* the parent of a found entity is not the entity's own root: [e] is not the tree's root key *)
